@@ -133,8 +133,15 @@ Fixpoint show (e : lexpr) : string :=
 
 (* sympde.calculus.Dot.__new__ on two non-commutative operands without coefficients:
    `if str(a) > str(b): a, b = b, a`, then Basic.__new__(Dot, a, b) *)
+(* since /repo d07302d the order is imposed only when neither operand may be matrix-valued (_may_be_matrix):
+   of the operands that EssentialBC hands to dot() only Grad(u) with u a VECTOR function is *)
+Definition may_mat (e : lexpr) : bool :=
+  match e with
+  | ENode "Grad" [EFun f] => f_vec f
+  | _ => false
+  end.
 Definition mk_dot (a b : lexpr) : lexpr :=
-  if String.ltb (show b) (show a) then ENode "Dot" [b; a] else ENode "Dot" [a; b].
+  if negb (may_mat a || may_mat b) && String.ltb (show b) (show a) then ENode "Dot" [b; a] else ENode "Dot" [a; b].
 
 (* ------------------------------------------------------------- EssentialBC *)
 Inductive err :=
